@@ -819,6 +819,7 @@ class TickEvent:
     detail: Dict[str, Any]
     in_loop: bool
     guard: List[str]
+    guard_ir: List[Any] = field(default_factory=list)   # [(condition IR, polarity)]
 
 
 class TickExec:
@@ -831,6 +832,7 @@ class TickExec:
         self.events: List[TickEvent] = []
         self.in_loop = False
         self.guard: List[str] = []
+        self.guard_ir: List[Any] = []
         self.problems: List[str] = []
         self.benign = benign
         self.loops: List[Any] = []
@@ -849,7 +851,7 @@ class TickExec:
         return e
 
     def ev(self, kind, **d):
-        self.events.append(TickEvent(kind, d, self.in_loop, list(self.guard)))
+        self.events.append(TickEvent(kind, d, self.in_loop, list(self.guard), list(self.guard_ir)))
 
     def is_step(self, e):
         return isinstance(e, tuple) and e[0] == "mcall" and e[1] == ("this",) and e[2] == self.step_name
@@ -980,12 +982,16 @@ class TickExec:
                 return
             cond = self.res(cond)
             self.guard.append(cppast.show(cond))
+            self.guard_ir.append((cond, True))
             self.block(then)
             self.guard.pop()
+            self.guard_ir.pop()
             if els:
                 self.guard.append("!" + cppast.show(cond))
+                self.guard_ir.append((cond, False))
                 self.block(els)
                 self.guard.pop()
+                self.guard_ir.pop()
             return
         if k == "rangefor":
             self.ev("LOOP-BEGIN", var=cppast.show(s[1]) if isinstance(s[1], tuple) else s[1], range=s[2], range_text=cppast.show(s[2]) if s[2] else "?")
